@@ -197,6 +197,30 @@ def resolve(fn: str):
     return getattr(importlib.import_module(mod), name)
 
 
+def _raised_in_library(e: BaseException) -> bool:
+    """True when the traceback passes through the kaira package (and the exception is not one of the harness's own assertions)."""
+    tb = e.__traceback__
+    hit = False
+    while tb is not None:
+        fn = tb.tb_frame.f_code.co_filename.replace("\\", "/")
+        if "/kaira/" in fn and "/kverif/" not in fn:
+            hit = True
+        tb = tb.tb_next
+    return hit
+
+
+def replay_unit(ctx, cell, case):
+    """Replay of a <ID>.library_raised failure: run the unit again."""
+    fn = resolve(case["fn"])
+    ctx.tier = case.get("tier", ctx.tier)
+    try:
+        fn(ctx, **case["kwargs"])
+    except Exception as e:  # noqa: BLE001
+        if not _raised_in_library(e):
+            raise
+        ctx.fail(f"{ctx.prop}.library_raised", cell, case, f"{type(e).__name__}: {str(e)[:200]}", "no exception", "the library raised inside this unit on an input the check generates as valid", "kverif.core:replay_unit")
+
+
 def run_unit(prop: str, unit: Unit, tier: str, seed: int) -> dict:
     """Executed in a worker process."""
     try:
@@ -212,8 +236,15 @@ def run_unit(prop: str, unit: Unit, tier: str, seed: int) -> dict:
         fn = resolve(unit.fn)
         with quiet():
             fn(ctx, **unit.kwargs)
-    except BaseException:  # harness error, never a violation
-        err = traceback.format_exc()
+    except BaseException as e:
+        if isinstance(e, Exception) and _raised_in_library(e):
+            # Every input the units generate is valid and handled on the reference tree; an exception that comes out of the library's own
+            # code is therefore the library's behaviour (a violation: it did not return what the property promises), not a harness fault.
+            ctx.fail(f"{prop}.library_raised", {"unit": unit.name}, {"unit": unit.name, "fn": unit.fn, "kwargs": jsonable(unit.kwargs), "tier": tier},
+                     f"{type(e).__name__}: {str(e)[:200]}", "no exception", "the library raised inside this unit on an input the check generates as valid", "kverif.core:replay_unit")
+            ctx.note("unit aborted by a library exception: the rest of its cases were not explored")
+        else:  # harness error, never a violation
+            err = traceback.format_exc()
     r = ctx.result()
     r["harness_error"] = err
     return r
